@@ -22,9 +22,15 @@
   exactly the requested size directly in front of an inaccessible guard page (and behind a
   canary), so an access past the end faults at once and is reported as a C18 violation.
   ASan/Miri exist in the sandbox but are not part of this technique and are not used.
+
+  * `metadata_sizes_match_source` — the three `metadata_size` computations are re-derived from the
+    Rust source on every run (`tools/rs2lean.py`, `Gen/Meta.lean`) and equal the model's sizes
+    (`Proofs/GenMeta.lean`; the `size_of`/`align_of` values of the five element types are listed
+    there and cross-checked by the unit differential `meta`).
 -/
 import LLFreeV.Props.C09
 import LLFreeV.Model.Codec
+import LLFreeV.Proofs.GenMeta
 namespace LLFree.C18
 open LLFree
 
@@ -94,5 +100,15 @@ theorem sizes_zero (g : Geom) (hg : 0 < g.hugeFrames) (ht : 0 < g.treeFrames) :
 /-- Non-vacuity: the default geometry with 4097 frames: 9 bitfields of 64 bytes, 3 tables of
     64 bytes; the last entry ends exactly at the end of the buffer. -/
 example : lowerSize ⟨9, 4⟩ 4097 = 9 * 64 + 3 * 64 ∧ 9 * 64 + 2 * 64 + 3 * 2 + 2 ≤ lowerSize ⟨9, 4⟩ 4097 := by decide
+
+/-- **The buffer sizes of the model are those of the current source**: `Trees::metadata_size`,
+    `Lower::metadata_size` (through `Metadata::new`) and `Locals::metadata_size` are regenerated from
+    the source on every run (`Gen/Meta.lean`: `div_ceil`, `next_multiple_of`, `size_of_slice` as written)
+    and, for the type sizes of `GenTree.tyOf`, equal the sizes the layout theorems are about. -/
+theorem metadata_sizes_match_source (g : Geom) (frames : Nat) (classes : List (Nat × Nat)) :
+    Gen.M.treesSize (GenTree.tyOf g) g.treeFrames frames = treesSize g frames ∧
+    Gen.M.lowerSize (GenTree.tyOf g) g.hugeFrames g.treeFrames frames = lowerSize g frames ∧
+    Gen.M.localsSize (GenTree.tyOf g) ((classes.map (·.2)).sum) = localsSize classes :=
+  ⟨GenTree.treesSize_eq g frames, GenTree.lowerSize_eq g frames, GenTree.localsSize_eq g classes⟩
 
 end LLFree.C18
